@@ -1185,6 +1185,20 @@ class _Identifiers:
 
     def visitControlLine(self, node):
         self.check_declared(node)
+        if (
+            self.compiler.enable_loop
+            and node.keyword == "for"
+            and not node.isend
+            and "loop" not in self.declared.union(self.locally_declared)
+        ):
+            # visitControlLine of the code generator rewrites this line to
+            # use __M_loop when the line or its suite mentions "loop", also
+            # when the only mention sits in a nested <%def> or <%call> body;
+            # make sure this function then creates its __M_loop
+            loop_variable = LoopVariable()
+            node.accept_visitor(loop_variable)
+            if loop_variable.detected:
+                self.undeclared.add("loop")
 
     def visitCode(self, node):
         if not node.ismodule:
